@@ -207,6 +207,15 @@ T("C14", "generalized-guard-through-local", "iodata/prepare.py", r'    if data\.
 M("C04", "vasp-direct-keyword-taken-for-cartesian", F + "chgcar.py", r'cartesian = line\[0\]\.lower\(\) in \["c", "k"\]', 'cartesian = line[0].lower() in ["c", "k", "d"]', "C04-R4")
 T("C04", "vasp-mode-switch-in-a-helper", F + "chgcar.py", r'    line = next\(lit\)\n    # the 7th line can optionally indicate selective dynamics\n    if line\[0\]\.lower\(\) in \["s"\]:\n        line = next\(lit\)\n    # parse direct/cartesian switch\n    cartesian = line\[0\]\.lower\(\) in \["c", "k"\]\n', '    cartesian = _mode(lit)\n', also=[(r"\ndef _load_vasp_header\(", "\ndef _mode(lit):\n    line = next(lit)\n    if line[0].lower() in [\"s\"]:\n        line = next(lit)\n    return line[0].lower() in [\"c\", \"k\"]\n\n\ndef _load_vasp_header(")])
 M("C08", "json-dispatch-table-drops-preflight-variant", F + "json_qcschema.py", r'    elif schema_name == "qcschema_basis":\n        raise NotImplementedError\(f"\{schema_name\} not yet implemented in IOData\."\)', '    elif schema_name in ("qcschema_basis", "qcschema_wavefunction"):\n        raise NotImplementedError(f"{schema_name} not yet implemented in IOData.")', "C08-R7")
+# ----------------------------------------------------------------------------- batch 9 rules
+M("C02", "wfx-atomic-numbers-from-core-charges", F + "wfx.py", r'_write_xml_iterator\(tag=lbs\["atnums"\], info=data\.atnums, file=f\)', '_write_xml_iterator(tag=lbs["atnums"], info=np.round(data.atcorenums).astype(int), file=f)', "C02-R33")
+T("C02", "wfx-atomic-numbers-through-local", F + "wfx.py", r'    _write_xml_iterator\(tag=lbs\["atnums"\], info=data\.atnums, file=f\)', '    atomic_numbers = data.atnums\n    _write_xml_iterator(tag=lbs["atnums"], info=atomic_numbers, file=f)')
+M("C04", "wfx-gradient-as-forces", F + "wfx.py", r"nuc_cart_energy_grad = list\(zip\(nuclear_names, data\.atgradient\)\)", "nuc_cart_energy_grad = list(zip(nuclear_names, -data.atgradient))", "C04-R10")
+M("C03", "mwfn-core-charge-from-number-column", F + "mwfn.py", r'data\["atcorenums"\]\[atom\] = words\[3\]', 'data["atcorenums"][atom] = words[2]', "C03-R26")
+M("C10", "missing-source-convention-falls-back", "iodata/convert.py", r"            conv1 = molbasis\.conventions\[key\]", "            conv1 = molbasis.conventions.get(key, HORTON2_CONVENTIONS[key])", "C10-R4")
+M("C05", "molden-orbitals-split-by-count", F + "molden.py", r'        if info\["spin"\]\.strip\(\)\.lower\(\) == "alpha":', '        if len(occsa) < 2:', "C05-R16")
+M("C19", "gaussian-atom-line-without-separators", "iodata/inputs/gaussian.py", r'f"\{symbol:3s\} \{x:10\.6f\} \{y:10\.6f\} \{z:10\.6f\}"', 'f"{symbol:3s}{x:11.6f}{y:11.6f}{z:11.6f}"', "C19-R2")
+M("C12", "occsb-setter-drops-first-assignment", "iodata/orbitals.py", r"            self\.occs\[self\.norba :\] = occsb", "            occs = np.zeros(self.norb) if self.occs is None else self.occs\n            occs[self.norba :] = occsb", "C12-R4")
 # ----------------------------------------------------------------------------- C14
 M("C14", "segmented-reversed", "iodata/convert.py", r"    for shell in obasis\.shells:\n        if \(shell\.ncon == 1\)", "    for shell in reversed(obasis.shells):\n        if (shell.ncon == 1)", "C14-R1")
 M("C14", "segmented-wrong-exponents", "iodata/convert.py", r"Shell\(shell\.icenter, \[angmom\], \[kind\], shell\.exponents, coeffs\.reshape\(-1, 1\)\)", "Shell(shell.icenter, [angmom], [kind], shell.exponents[::-1], coeffs.reshape(-1, 1))", "C14-R1")
